@@ -34,7 +34,8 @@ CONSTANTS BufLen,          \* bufferLen (200 in the code)
           TimeoutSignals, SkipOnErr, ReportRetry,
           AllowClose,      \* Egress.Close may happen
           AllowRecon,      \* the stuck-reconnect branch of sendLoop may close the connection
-          RecordHist       \* keep the action history (behaviour export)
+          RecordHist,      \* keep the action history (behaviour export)
+          MaxHist          \* bound on the history length when it is kept
 
 Senders == {1, 2}          \* 1 = pool.primary, 2 = pool.secondary (objects, not roles)
 Other(s) == 3 - s
@@ -380,9 +381,10 @@ CloseWait == CloseWaitCore /\ H([a |-> "CloseWait", s |-> closing])
 SenderProgress(s) == Top(s) \/ DialOK(s) \/ PopBegin(s) \/ Wake(s) \/ WriteOK(s) \/ SwapEnter2(s) \/ ReportOK(s)
 SenderFault(s) == DialFail(s) \/ WriteErr(s) \/ ReportErr(s) \/ LateTimer(s)
 
-Next == \/ Push \/ PushSec
-        \/ \E s \in Senders : SenderProgress(s) \/ SenderFault(s) \/ TimeoutFires(s)
-        \/ CloseBegin \/ CloseSender \/ CloseWait
+Next == /\ RecordHist => Len(hist) < MaxHist
+        /\ \/ Push \/ PushSec
+           \/ \E s \in Senders : SenderProgress(s) \/ SenderFault(s) \/ TimeoutFires(s)
+           \/ CloseBegin \/ CloseSender \/ CloseWait
 
 Spec == Init /\ [][Next]_vars
 
@@ -445,5 +447,6 @@ EventuallyWritten == <>[](AccIds \subseteq DoneIds \/ shut)
 EventuallyReported == <>[](wb[1] = 0 \/ shut)
 CloseTerminates == (closing = 1) ~> (closing = 3)
 
-Export == PrintT(<<"BEH", ToJson(hist')>>)
+(* behaviour export (simulation): print a behaviour when it is complete *)
+Export == (Len(hist') = MaxHist \/ closing' = 3) => PrintT(<<"BEH", ToJson(hist')>>)
 ===============================================================================
